@@ -59,6 +59,11 @@ type BubbleConfig struct {
 	// Guards: a goroutine parked at the point is enabled only while the
 	// predicate holds (used to model a lock held across parks).
 	Guards map[string]func() bool
+	// Stall: a goroutine that parks at one of these points is not scheduled for
+	// the given number of decisions, as long as anything else can run (a node
+	// that stalls at a particular place, e.g. in the middle of a critical
+	// section).
+	Stall map[string]int
 	// PCT, when non-nil, replaces the tape by a priority schedule in the style
 	// of probabilistic concurrency testing: every goroutine gets a pseudo-random
 	// priority derived from Seed and its name, the highest-priority enabled
@@ -94,6 +99,9 @@ type G struct {
 	point  string
 	ch     chan struct{}
 	parked bool
+	// stalledUntil: not schedulable before this decision index (see BubbleConfig.Stall)
+	stalledUntil int
+	stallSet     bool
 }
 
 // Outcome describes one finished run.
@@ -248,6 +256,7 @@ func (b *Bubble) enabled(g *G) bool {
 
 func (b *Bubble) release(g *G) {
 	g.parked = false
+	g.stallSet = false
 	b.running = g
 	close(g.ch)
 }
@@ -340,15 +349,28 @@ func (b *Bubble) loop(clients []Client) {
 			b.mu.Unlock()
 			continue
 		}
-		var en []*G
+		var en, stalled []*G
 		var state []string
 		for _, g := range b.all {
 			if g.parked {
 				state = append(state, g.Name+"@"+g.point)
 			}
 			if b.enabled(g) {
+				if n := b.cfg.Stall[g.point]; n > 0 {
+					if !g.stallSet {
+						g.stallSet = true
+						g.stalledUntil = out.Decisions + n
+					}
+					if out.Decisions < g.stalledUntil {
+						stalled = append(stalled, g)
+						continue
+					}
+				}
 				en = append(en, g)
 			}
+		}
+		if len(en) == 0 {
+			en = stalled // nothing else can run: the stall is over
 		}
 		if len(en) == 0 {
 			alldone := len(b.done) == b.nclient
